@@ -49,14 +49,6 @@ Proof.
       * intros [->|[H _]]; [right; now left|now left].
 Qed.
 
-Lemma swap_remove_perm {A} (l1 : list A) a l2 : Permutation (swap_remove (l1 ++ a :: l2) (nlen l1)) (l1 ++ l2).
-Proof.
-  destruct l2 as [|b l2] using rev_ind.
-  - rewrite swap_remove_snoc, N.eqb_refl, app_nil_r. reflexivity.
-  - clear IHl2. replace (l1 ++ a :: l2 ++ [b]) with ((l1 ++ a :: l2) ++ [b]) by (rewrite <- app_assoc; reflexivity).
-    rewrite swap_remove_snoc. replace (nlen l1 =? nlen (l1 ++ a :: l2)) with false by (symmetry; apply N.eqb_neq; rewrite nlen_app, nlen_cons; lia).
-    rewrite nset_app_mid. apply Permutation_app_head. apply Permutation_cons_append.
-Qed.
 
 Lemma cache_remove_spec c ai : idx_nodup c ->
   idx_nodup (cache_remove c ai) /\ forall x, In x (cache_remove c ai) <-> In x c /\ ce_idx x <> ai.
